@@ -161,6 +161,19 @@ func c15workList() []c15work {
 		return out
 	}
 	doc, _ := gx.DocJSON(b)
+	// documents with JSON floats (coordinates are the only ones a document can
+	// hold): canonical JSON formats them on its own path
+	for k, co := range [][2]string{{"40.41677541234567", "-3.7037901234567891"}, {"0.1", "1.0e-7"}, {"-89.99999999999999", "179.99999999999997"}, {"51.5", "-0.25"}} {
+		if n, err := jmut.Parse(doc); err == nil {
+			if sup := n.Get("supplier"); sup != nil && sup.K == jmut.Obj {
+				coords := jmut.O(jmut.Member{Key: "lat", Val: jmut.N(co[0])}, jmut.Member{Key: "lon", Val: jmut.N(co[1])})
+				sup.Set("addresses", jmut.Ar(jmut.O(jmut.Member{Key: "locality", Val: jmut.S("Madrid")}, jmut.Member{Key: "country", Val: jmut.S("ES")}, jmut.Member{Key: "coords", Val: coords})))
+				n.Del("totals")
+				out = append(out, c15work{fmt.Sprintf("coordinates-invoice-%d", k), n.Bytes()})
+			}
+		}
+		out = append(out, c15work{fmt.Sprintf("coordinates-party-%d", k), []byte(`{"$schema":"https://gobl.org/draft-0/org/party","uuid":"0190a1b2-c3d4-7e5f-8a9b-0c1d2e3f4a5b","name":"P","addresses":[{"locality":"X","coords":{"lat":` + co[0] + `,"lon":` + co[1] + `}}]}`)})
+	}
 	var regs, addons []string
 	for r := range w.defs.Regimes {
 		regs = append(regs, r)
@@ -727,6 +740,7 @@ func runC15(c *Ctx) {
 		}
 	}
 	c15bulk(c, tmp)
+	c.Require("registry_alias_checks", "cold_start_processes", "bulk_requests")
 }
 
 // ---- bulk stream checker -----------------------------------------------------------
